@@ -1,6 +1,7 @@
 package main
 
 import (
+	"fmt"
 	"go/types"
 	"strings"
 )
@@ -152,6 +153,19 @@ func init() {
 			cs = append(cs, not(ex.chainTerm(res, ex.w.typeID(t))), not(eq(res.L[0], num(int64(ex.w.typeID(t))))))
 		}
 		ex.assume(and(cs...))
+		// history of the call (ncalls(DecodeLayers) / lastres(DecodeLayers, 0)), so that callers can say what they do with
+		// each outcome of the decoder
+		nk := "X|ncalls.DecodeLayers"
+		ex.registerKey(nk, sInt)
+		prev := ex.heapGet(c.st, nk, sInt)
+		ex.setH(c.st, nk, ex.name("ncalls", ite(c.r(), app("+", prev, "1"), prev), sInt))
+		ex.lastResTypes["DecodeLayers.0"] = errorT()
+		for j, l := range leaves(errorT()) {
+			rk := fmt.Sprintf("X|lastres.DecodeLayers.0.%d", j)
+			ex.registerKey(rk, l.Sort)
+			pv := ex.heapGet(c.st, rk, l.Sort)
+			ex.setH(c.st, rk, ex.name("lres", ite(c.r(), res.L[j], pv), l.Sort))
+		}
 		return res
 	})
 
